@@ -53,7 +53,21 @@ namespace vh
     using SM = SparseOf<L, CSC>;
     std::size_t ne = t.nat();
     auto es = readPairs(t, ne);
-    SM m = makeSparse<SM>(n, blocks, es, 0.0);
+    SM m;
+    if (t.str() == "prev")
+    {
+      // history: a live matrix with another pattern is assigned from a builder (`matrix = builder`)
+      std::size_t n0 = t.nat(), blocks0 = t.nat();
+      std::size_t ne0 = t.nat();
+      auto es0 = readPairs(t, ne0);
+      m = makeSparse<SM>(n0, blocks0, es0, 1.0);
+      auto b = SM::Create(n).SetNumberOfBlocks(blocks).InitialValue(0.0);
+      for (auto& e : es)
+        b = b.WithElement(e.first, e.second);
+      m = b;
+    }
+    else
+      m = makeSparse<SM>(n, blocks, es, 0.0);
     Out o;
     o.os << "sparse size=" << m.AsVector().size();
     o.key("idx");
